@@ -111,7 +111,11 @@ func genPropCase(t *rapid.T) PropCase {
 		c.Mid = 3
 		bs := ck.BlockSpec{TimeD: 1000, Nonce: rapid.Uint64().Draw(t, "mid_nonce")}
 		for j := rapid.IntRange(1, 2).Draw(t, "mid_n"); j > 0; j-- {
-			if rapid.IntRange(0, 2).Draw(t, "mid_block_account") == 0 {
+			if rapid.IntRange(0, 3).Draw(t, "mid_lower_vub") == 0 {
+				// Echidna made the validity window a Policy value: a pooled transaction valid until far ahead stops being
+				// valid ("not yet valid") when the committee shrinks the window
+				bs.Txs = append(bs.Txs, ck.Action{Kind: "policy", S: "setMaxValidUntilBlockIncrement", From: 4 + rapid.IntRange(0, 1).Draw(t, "payer"), N: int64(rapid.IntRange(1, 6).Draw(t, "mid_vub_inc")), Nonce: rapid.Uint32().Draw(t, "pnonce")})
+			} else if rapid.IntRange(0, 2).Draw(t, "mid_block_account") == 0 {
 				bs.Txs = append(bs.Txs, ck.Action{Kind: "policy", S: "blockAccount", From: 4 + rapid.IntRange(0, 1).Draw(t, "payer"), A: rapid.IntRange(0, 5).Draw(t, "blocked"), Nonce: rapid.Uint32().Draw(t, "pnonce")})
 			} else {
 				bs.Txs = append(bs.Txs, genPolicyAction(t))
